@@ -59,6 +59,45 @@ pub fn plans() -> Vec<Plan> {
                 "std's RandomState obtains its keys through the libc symbol getrandom (self-checked at start)",
             ],
         },
+        Plan {
+            prop: "C12",
+            engine: "lsp",
+            level: "fault_enumeration",
+            quick_runs: 30_000,
+            thorough_runs: 1_500_000,
+            rule: "one run = one editor session against the real server thread (capacity-0 lockstep): initialize, a random history of up to 60 events drawn from the protocol fault kinds enabled for this run (swarm): didOpen, didChange with 0/1/2 content changes, semanticTokens requests, requests and notifications for unimplemented methods (integer and string ids), client responses, duplicated delivery, never-opened and non-file URIs, optional workspace folder on the simulated disk; then a recovery probe (didOpen of a valid document on a fresh URI), shutdown, exit. The oracle is a protocol monitor over the recorded history. distinct = distinct trace JSON; non-trivial = the history contains at least one event that requires an answer or changes server state.",
+            assumptions: &[
+                "all params are schema-valid LSP; malformed params are outside the property's quantifier and are not sent",
+                "requests are never duplicated (JSON-RPC ids are unique per session); only notifications are re-delivered",
+                "exit is offered immediately after the shutdown response is taken: lsp-server's real 30 s recv_timeout is never allowed to elapse (not virtualisable, DESIGN.md §7)",
+            ],
+        },
+        Plan {
+            prop: "C11",
+            engine: "lsp",
+            level: "exploration",
+            quick_runs: 8420 + 2580,
+            thorough_runs: 168_420 + 131_580,
+            rule: "runs 0..8419 (quick) / 0..168419 (thorough) enumerate every notification sequence of length <=3 / <=4 over 2 URIs x 5 document classes (valid, lexical error, syntax error, semantic error, depends-on-other-document) x {didOpen, didChange}; the remaining runs are random histories of up to 40 events over 2-4 URIs and generated cross-referencing documents with crash/restart, duplicated delivery, 0/2-change didChange, stale versions and an optional workspace folder. After every didOpen/didChange step three oracles run: exactly one publishDiagnostics(uri, version); equality with a freshly started server (new OS randomness) that opens the current contents; containment equality with the real cli::check on a directory holding the same contents. distinct = distinct trace JSON; non-trivial = at least one edit event.",
+            assumptions: &[
+                "documents are ASCII so that byte, char and UTF-16 columns coincide",
+                "with full-text sync a didChange carrying several content changes leaves the document equal to the last one; one carrying none leaves it unchanged",
+                "a diagnostic whose primary label is in another file but which has a secondary label in the notified file may be published for the notified file too",
+            ],
+        },
+        Plan {
+            prop: "C15",
+            engine: "lsp",
+            level: "exploration",
+            quick_runs: 6000,
+            thorough_runs: 400_000,
+            rule: "one run = one editor session with semanticTokens/full requests interleaved in a random edit history (didOpen/didChange on 1-3 URIs, generated documents with random trivia: comments before tokens on the same line, multi-line comments, tabs, CRLF; crash/restart; never-opened and non-file URIs). Each response is decoded under the LSP relative encoding and compared with the lexemes of the document's *current* text and with the answer of a fresh server. distinct = distinct trace JSON; non-trivial = at least one request or edit.",
+            assumptions: &[
+                "ironplc_parser::tokenize_program is trusted for lexeme boundaries of the current text (its correctness is C05, not claimed); only the LSP layer and the history are under test",
+                "documents are ASCII; the length of multi-line lexemes is not compared",
+                "class check is deliberately narrow: comments, identifiers and punctuation operators only",
+            ],
+        },
     ]
 }
 
@@ -82,6 +121,7 @@ pub fn generate(prop: &str, tier_thorough: bool, r: u64, seed: u64) -> Trace {
     let mut rng = Rng::new(run_seed(seed, prop, r));
     match plan_for(prop).map(|p| p.engine) {
         Some("world") => Trace::World(crate::world_oracles::generate(prop, &mut rng, tier_thorough)),
+        Some("lsp") => Trace::Lsp(crate::lsp_oracles::generate(prop, &mut rng, tier_thorough, r)),
         _ => panic!("no generator for {prop}"),
     }
 }
